@@ -142,6 +142,17 @@ func checkC18(c InstCase) Verdict {
 		v.Skip = "diagnosed"
 		return v
 	}
+	if c.Ctx != "" {
+		preSrc, _, _ := c.context()
+		pre := asm.Assemble(preSrc)
+		if asm.Diagnosed(pre, asm.Baseline(sem.Header(c.Mode))) || len(r.Out) < len(pre.Out) || string(r.Out[:len(pre.Out)]) != string(pre.Out) {
+			v.Skip = "context statement alone diagnosed or changed (C14 decides)"
+			return v
+		}
+		r.Out = r.Out[len(pre.Out):]
+		v.Key += "|" + c.Ctx
+		st.Classes["ctx:"+c.Ctx]++
+	}
 	if m := sem.Compare(c.St, mode, r.Out); m != nil {
 		// meaning is C01's business; C18 needs a correct encoding to talk about its length
 		v.Skip = "does not decode to the statement (C01 decides)"
@@ -250,13 +261,17 @@ func c18Mems(size string) []sem.Operand {
 
 var propC18 = &Prop[InstCase]{
 	ID:   "C18",
-	Rule: "ADD/OR/AND/SUB/XOR/CMP x every register of each width and typed memory destinations (every 16-bit shape and several 32-bit ones, without displacement and with displacements on both sides of the disp8 range) x immediates on both sides of -128/127 and the boundary set; MOV accumulator <-> absolute address; MOV reg,imm; PUSH/POP reg; BITS 16/32; oracle: decodes to the statement (C01's comparison) and length <= reference minimum (prefixes + opcode + minimal ModR/M/SIB/disp + minimal immediate form; equal-length alternatives accepted); non-trivial = at least two legal encodings of different length exist; distinct by (mode, statement)",
+	Rule: "ADD/OR/AND/SUB/XOR/CMP x every register of each width and typed memory destinations (every 16-bit shape and several 32-bit ones, without displacement and with displacements on both sides of the disp8 range) x immediates on both sides of -128/127 and the boundary set; MOV accumulator <-> absolute address; MOV reg,imm; PUSH/POP reg; BITS 16/32; alone or right after the same statement with another register (state kept per mnemonic and address); oracle: decodes to the statement (C01's comparison) and length <= reference minimum (prefixes + opcode + minimal ModR/M/SIB/disp + minimal immediate form; equal-length alternatives accepted); non-trivial = at least two legal encodings of different length exist; distinct by (mode, statement)",
 	Gen: func(t *rapid.T) InstCase {
 		mode := rapid.SampledFrom([]int{0, 16, 32}).Draw(t, "mode")
 		if rapid.IntRange(0, 9).Draw(t, "moffs") == 0 {
 			var all []sem.Stmt
 			c18Moffs(func(s sem.Stmt) { all = append(all, s) })
-			return InstCase{Mode: mode, St: all[rapid.IntRange(0, len(all)-1).Draw(t, "mo")], Cls: "mov.moffs"}
+			ic := InstCase{Mode: mode, St: all[rapid.IntRange(0, len(all)-1).Draw(t, "mo")], Cls: "mov.moffs"}
+			if rapid.Bool().Draw(t, "mosib") {
+				ic.Ctx = "sibling"
+			}
+			return ic
 		}
 		fs := c18Forms()
 		f := fs[rapid.IntRange(0, len(fs)-1).Draw(t, "form")]
@@ -274,7 +289,11 @@ var propC18 = &Prop[InstCase]{
 				st.Ops[i] = immOp(rapid.SampledFrom(c18Imms).Draw(t, "bimm"), rapid.IntRange(0, 1).Draw(t, "bstyle"))
 			}
 		}
-		return InstCase{Mode: mode, St: st, Cls: f.Class}
+		ic := InstCase{Mode: mode, St: st, Cls: f.Class}
+		if rapid.IntRange(0, 3).Draw(t, "sib") == 0 {
+			ic.Ctx = "sibling"
+		}
+		return ic
 	},
 	Check: checkC18,
 	Enum: func(tier string, yield func(InstCase)) bool {
@@ -315,6 +334,7 @@ var propC18 = &Prop[InstCase]{
 				}
 			}
 			c18Moffs(func(s sem.Stmt) { yield(InstCase{Mode: mode, St: s, Cls: "mov.moffs"}) })
+			c18Moffs(func(s sem.Stmt) { yield(InstCase{Mode: mode, St: s, Cls: "mov.moffs", Ctx: "sibling"}) })
 			if mode == 32 {
 				c18Moffs32(func(s sem.Stmt) { yield(InstCase{Mode: mode, St: s, Cls: "mov.moffs"}) })
 			}
